@@ -52,6 +52,16 @@ def dense(A):
 
 def run_case(case, ctx):
     H = nets.build(case["spec"])
+    _evaluate(H, case, ctx)
+    # the same object after an edit that changes neither the number of nodes nor the number of edges: nothing computed
+    # for the earlier state may survive (every matrix is re-derived and compared again)
+    edited = nets.small_edit(H) is not None
+    if edited:
+        ctx.event("re-evaluated-after-edit")
+        _evaluate(H, case, ctx)
+
+
+def _evaluate(H, case, ctx):
     nodes, edges = list(H.nodes), list(H.edges)
     mem = {e: set(m) for e, m in H.edges.members(dtype=dict).items()}
     n = len(nodes)
@@ -178,7 +188,7 @@ def run_case(case, ctx):
                     continue
                 C(np.allclose(L.sum(axis=1), 0, atol=1e-9), ("laplacian", "row-sums"), "order %d" % order)
                 C(np.allclose(L, L.T, atol=1e-9), ("laplacian", "symmetric"), "order %d" % order)
-                C(np.linalg.eigvalsh((L + L.T) / 2).min() >= -1e-9, ("laplacian", "psd"), "order %d" % order)
+                C(nets.min_eig(L) >= -1e-9, ("laplacian", "psd"), "order %d" % order)
                 pos = {v: k for k, v in rd.items()} if rd else {v: i for i, v in enumerate(nodes)}
                 bad = []
                 for a in nodes:
@@ -219,7 +229,7 @@ def run_case(case, ctx):
             C(np.allclose(L, want, atol=1e-9), ("multiorder-laplacian", "entry"), lambda: "orders %r weights %r rescale %s sparse %s: got %r want %r" % (orders, weights, rescale, sparse, L.tolist(), want.tolist()))
             C(np.allclose(L.sum(axis=1), 0, atol=1e-9), ("multiorder-laplacian", "row-sums"), "")
             C(np.allclose(L, L.T, atol=1e-9), ("multiorder-laplacian", "symmetric"), "")
-            C(np.linalg.eigvalsh((L + L.T) / 2).min() >= -1e-9, ("multiorder-laplacian", "psd"), "")
+            C(nets.min_eig(L) >= -1e-9, ("multiorder-laplacian", "psd"), "")
         C(outs[0].shape == outs[1].shape and np.allclose(outs[0], outs[1], atol=1e-9), ("multiorder-laplacian", "sparse-vs-dense"), "")
     # ---- normalised Laplacian (Zhou et al.): I - Dv^-1/2 H W De^-1 H^T Dv^-1/2, Dv = weighted vertex degrees
     if n and edges and not list(H.nodes.isolates()):
@@ -245,15 +255,29 @@ def run_case(case, ctx):
                 Lp = L[np.ix_(p, p)]
                 C(np.allclose(Lp, Lp.T, atol=1e-9), ("normalized-laplacian", "symmetric"), "weighted=%s" % weighted)
                 ok_entry = np.allclose(Lp, want, atol=1e-9)
-                ok_psd = np.linalg.eigvalsh((Lp + Lp.T) / 2).min() >= -1e-9
+                ok_psd = nets.min_eig(Lp) >= -1e-9
                 if nonunit and np.allclose(Lp, lib_formula, atol=1e-9) and not (ok_entry and ok_psd):
                     # K1: vertex degrees stay unweighted when weighted=True
-                    ctx.fail(("normalized-laplacian", "weighted", "uses-unweighted-vertex-degrees"), "weights %r: min eigenvalue %.3g, textbook entry match %s" % (w.tolist(), np.linalg.eigvalsh((Lp + Lp.T) / 2).min(), ok_entry))
+                    ctx.fail(("normalized-laplacian", "weighted", "uses-unweighted-vertex-degrees"), "weights %r: min eigenvalue %.3g, textbook entry match %s" % (w.tolist(), nets.min_eig(Lp), ok_entry))
                     ctx.event("K1-hit")
                 else:
                     C(ok_entry, ("normalized-laplacian", "entry"), lambda: "weighted=%s sparse=%s got %r want %r" % (weighted, sparse, Lp.tolist(), want.tolist()))
-                    C(ok_psd, ("normalized-laplacian", "psd"), lambda: "weighted=%s min eig %r" % (weighted, np.linalg.eigvalsh((Lp + Lp.T) / 2).min()))
+                    C(ok_psd, ("normalized-laplacian", "psd"), lambda: "weighted=%s min eig %r" % (weighted, nets.min_eig(Lp)))
             if len(outs) == 2:
                 C(outs[0].shape == outs[1].shape and np.allclose(outs[0], outs[1], atol=1e-9), ("normalized-laplacian", "sparse-vs-dense"), "weighted=%s" % weighted)
     sizes_share = any(len(mem[a]) != len(mem[b]) and mem[a] & mem[b] for a, b in itertools.combinations(edges, 2))
     ctx.mark(sizes_share and nodes != list(range(n)))
+
+
+# --------------------------------------------------------------------------------------------
+# one network beyond the small scope: edges of 130 nodes (counts that do not fit a signed byte)
+
+
+def _large(tier, seed, run):
+    big = list(range(130))
+    spec = {"cls": "H", "kind": "int", "nodes": [], "edges": [[None, big, {}], [None, big[1:] + [130], {"weight": 2}], [None, [0, 131], {}], [None, [5, 6, 7], {}]], "net": {}}
+    run({"spec": spec, "orders": [1, 2], "weights": [1, 0.5]})
+    return {"large_network_cases": 1, "large_network_note": "4 edges on 132 nodes, two of them with 130 members sharing 129"}
+
+
+EXTRA = [_large]
